@@ -75,7 +75,7 @@ variant('b-channel-complete-marks-sent', ['C10'], H + 'request_cahnnel_common.py
                 self.mark_completed_and_finish(received=True)
 """, """            if frame.flags_complete:
                 self.mark_completed_and_finish(sent=True)
-""", ('C10.a', 'then'))
+""", ('C10.a', 'half-close keeps the stream'))
 variant('b-finish-stream-keeps-cache', ['C10'], 'rsocket/rsocket_base.py',
         """        self._stream_control.finish_stream(stream_id)
         self._frame_fragment_cache.remove(stream_id)
@@ -137,7 +137,7 @@ variant('t-rrreq-inverted-if', ['C07', 'C10', 'C08', 'C09'], H + 'request_respon
             self._finish_stream()
 """, kind='twin')
 variant('t-channel-renamed-flags', ['C07', 'C10', 'C08', 'C09', 'C01', 'C06'], H + 'request_cahnnel_common.py',
-        "_received_complete", "_inbound_closed", kind='twin', count=4)
+        "_received_complete", "_inbound_closed", kind='twin', count=9)
 variant('t-streamcontrol-del', ['C07', 'C10', 'C08', 'C09', 'C11'], 'rsocket/stream_control.py',
         "        self._streams.pop(stream_id, None)\n",
         "        if stream_id in self._streams:\n            self._streams.pop(stream_id)\n", kind='twin')
@@ -2655,11 +2655,11 @@ variant_multi('b-connection-reset-raised-as-transport-closed', ['C11'], [
 variant('t-transport-closed-is-a-transport-error', ['C11', 'C12'], 'rsocket/exceptions.py',
         "class RSocketTransportClosed(RSocketError):", "class RSocketTransportClosed(RSocketTransportError):", kind='twin')
 
-# C01.f (shared C08): the completing element carries the flag
-variant('b-completing-element-delivered-as-two-signals', ['C08', 'C01'], H + 'request_stream_requester.py',
+# since F26 the completing element may be delivered as on_next + on_complete: the requester is silent afterwards
+variant('t-completing-element-delivered-as-two-signals', ['C08', 'C01', 'C07', 'C10'], H + 'request_stream_requester.py',
         "                self._subscriber.on_next(payload_from_frame(frame),\n                                         is_complete=frame.flags_complete)\n            elif frame.flags_complete:\n                self._subscriber.on_complete()\n\n            if frame.flags_complete:\n                self._finish_stream()",
         "                self._subscriber.on_next(payload_from_frame(frame))\n\n            if frame.flags_complete:\n                self._subscriber.on_complete()\n                self._finish_stream()",
-        ('C01.f', 'RequestStreamRequester.frame_received/PayloadFrame[complete,next]'))
+        kind='twin')
 
 # C17.j a transport's close() keeps the cancellation of its feeder task to itself
 variant('b-aiohttp-feeder-re-raises-its-cancellation', ['C17', 'C11'], 'rsocket/transports/aiohttp_websocket.py',
@@ -2677,8 +2677,8 @@ variant_multi('t-aiohttp-feeder-re-raises-and-close-contains-it', ['C17', 'C11']
 
 # C09.a shared into C10: cancel() always cancels
 variant('b-channel-cancel-ignored-before-setup', ['C10', 'C09'], H + 'request_cahnnel_common.py',
-        "    def cancel(self):\n        self.send_cancel()\n        self.mark_completed_and_finish(received=True)",
-        "    def cancel(self):\n        if self.subscriber is None:\n            return\n        self.send_cancel()\n        self.mark_completed_and_finish(received=True)",
+        "    def cancel(self):\n        if self._received_complete:",
+        "    def cancel(self):\n        if self.subscriber is None:\n            return\n        if self._received_complete:",
         ('C09.a', 'RequestChannelRequester.cancel'))
 
 # C08.l (F26, fixed ade6b24) an ended request-stream is silent
@@ -2699,3 +2699,11 @@ variant_multi('b-requester-notes-the-end-when-it-releases-the-stream', ['C08'], 
     ('C08.l', 'PayloadFrame[complete'))
 variant('t-requester-end-flag-renamed', ['C08', 'C07', 'C09', 'C10', 'C13', 'C01'], H + 'request_stream_requester.py',
         "_terminated", "_ended", kind='twin', count=6)
+
+# C08.l (F27, fixed 4e7e05a) an ended channel is silent
+variant('b-orig-f27-channel-request-n-written-after-the-end', ['C08'], H + 'request_cahnnel_common.py',
+        "    def request(self, n: int):\n        if self._received_complete:\n            return  # the peer's direction has ended: there is nothing left to ask for\n\n        self.send_request_n(n)\n",
+        "    def request(self, n: int):\n        self.send_request_n(n)\n", ('C08.l', 'request() and cancel() after it'))
+variant('b-channel-notes-the-peers-end-after-telling-the-subscriber', ['C08'], H + 'request_cahnnel_common.py',
+        "            if frame.flags_complete:\n                self._received_complete = True  # before the subscriber is told: it may ask for more in on_next\n\n            if frame.flags_next:",
+        "            if frame.flags_next:", ('C08.l', 'PayloadFrame[complete'))
